@@ -39,10 +39,19 @@ Theorem C18_search_agrees_with_json_form :
     Execute ord fuel n (norm g) = Ok (norm r).
 Proof. exact (go_search cap ord K). Qed.
 
+(* no panic: on ANY Go document whatever — structs, pointers, nil pointers,
+   typed slices, maps, well-formed or not — a navigational expression (nav; slice
+   bounds are Go ints) returns a value, an error, or nothing for arrays of 2^63
+   elements; it never panics *)
+Theorem C18_navigation_never_panics :
+  forall fuel n g, nav n = true -> slices_ok n = true -> ExecuteG cap fuel n g <> Panic.
+Proof. exact (go_no_panic cap). Qed.
+
 End C18.
 
 Print Assumptions C18_navigation_agrees_with_json_form.
 Print Assumptions C18_search_agrees_with_json_form.
+Print Assumptions C18_navigation_never_panics.
 
 (* a struct with a slice of pointers (one nil) and a nil pointer field:
    lp[*].foo, [p, lp[0]], lp[?foo].foo, length(lp), p || 'none' *)
